@@ -100,6 +100,12 @@ func (g *generatorv2) GenerateFile(f *file) error {
 		return err
 	}
 
+	// The source file need not end in a newline: make sure that the
+	// generated declarations start on a line of their own.
+	if len(bs) > 0 && bs[len(bs)-1] != '\n' {
+		buff.Write([]byte("\n"))
+	}
+
 	// At the bottom of the file, generate the type definitions and modifier function
 	// bodies.
 	for _, mod := range fileModifiers {
